@@ -55,6 +55,37 @@ Theorem lifecycle_explicit_delete_finalises :
 Proof. exact (explicit_delete_finalises_sw _ _ eq_refl eq_refl). Qed.
 Print Assumptions lifecycle_explicit_delete_finalises.
 
+(* through an owning Box: with the collector running, a delete of o finalises exactly once, at
+   once, every object that o reaches through ownership (chains of Boxes of any length, cycles) *)
+Theorem lifecycle_delete_reaches_owned :
+  forall (h : list ev) (k : kind) (o x : nat),
+    no_alloc_in_stop_window gc_rem_pending_finalises gc_sweep_nulls_first h = true ->
+    let s := run gc_rem_pending_finalises gc_sweep_nulls_first h in
+    torn s = false -> live s o = true -> kind_of s o = Some k -> running s = true ->
+    Reach s o x ->
+    let s' := run gc_rem_pending_finalises gc_sweep_nulls_first (h ++ [EDel k o]) in
+    fin_count s' x = 1 /\ free_count s' x = 1.
+Proof. exact (delete_reaches_owned_sw _ _ eq_refl eq_refl). Qed.
+Print Assumptions lifecycle_delete_reaches_owned.
+
+(* a collection that reclaims a Box finalises exactly once everything the Box reaches through
+   ownership, for every sweep order (owner met before or after the owned object — the D18
+   scenario) and every set of marks *)
+Theorem lifecycle_collect_reaches_owned :
+  forall (h : list ev) (order marks : list nat) (b x : nat),
+    let s := run gc_rem_pending_finalises gc_sweep_nulls_first h in
+    torn s = false -> running s = true ->
+    In b (map fst (reg s)) -> is_root s b = false -> ~ In b marks ->
+    Reach s b x ->
+    let s' := run gc_rem_pending_finalises gc_sweep_nulls_first (h ++ [ECollect order marks]) in
+    fin_count s' x = 1 /\ free_count s' x = 1.
+Proof. exact (collect_reaches_owned_sw _ _ eq_refl eq_refl). Qed.
+Print Assumptions lifecycle_collect_reaches_owned.
+
+Example lifecycle_reach_inhabited :
+  Reach (run true true sample_history) 1 2 /\ Reach (run true true sample_history) 3 4.
+Proof. exact sample_reach. Qed.
+
 (* after teardown (thread exit / Cello_Exit) every managed object ever allocated has been
    finalised exactly once and its memory released exactly once *)
 Theorem lifecycle_teardown_complete :
